@@ -615,7 +615,9 @@ SPEC = Spec(
         "passes every setting to the constructor parameter of the same name. "
         "R13-EQ-MEMO: EqualityComparer compares every array-carrying component "
         "through the memoised self.rec (raw == on such a component only for the "
-        "reviewed size-parameter-only shapes)."),
+        "reviewed size-parameter-only shapes). R13-STATE: caches are instance "
+        "state: no mutable default argument, no class- or module-level container "
+        "that a mapper mutates (canary fixture)."),
     not_decided=(
         "Visit counts and object identity on concrete exponential-path graphs "
         "(they follow from R13-ONCE but are not measured); 'never creates more "
